@@ -10,6 +10,7 @@ Oracle: exact reduction per run in Fractions.
 import itertools, math
 from fractions import Fraction
 import numpy as np
+from mc.explore import recycle
 import pandas as pd
 
 ID = "C08"
@@ -132,8 +133,9 @@ def index_of(runs, scheme):
 
 def check_agg_case(ctx, dutils, runs, scheme, vals, groups, case_base):
     n = len(vals)
-    idx = index_of(runs, scheme)
-    x = np.array(vals, dtype=np.float64)
+    # the same two array objects are refilled for every call of the same shape (see mc.explore.recycle)
+    idx = recycle("idx", index_of(runs, scheme))
+    x = recycle("x", np.array(vals, dtype=np.float64))
     nt = any(r >= 2 for r in runs) or any(math.isnan(v) for v in vals)
     for maxnan in sorted(set([0, 1, 2, n + 1])):
         for oper in (0, 1, 2, 3):
